@@ -156,7 +156,7 @@ Qed.
 
 Lemma step_good s o : good s -> good (fst (step s o)).
 Proof.
-  intros H. destruct o as [eb lat|a xs ws lat|a es ws|a xs|a cs|a xs|a cs|a xs ip|a|a isd ns dr ip]; simpl.
+  intros H. destruct o as [eb lat|a xs ws lat|a es ws|a es strict|a xs|a cs|a xs|a cs|a xs ip|a|a isd ns dr ip]; simpl.
   - destruct (bn_add_edges_g g_empty eb) as [g o1] eqn:E. destruct o1; [|exact H].
     destruct (acyclicb g); [|exact H]. simpl.
     apply (good_push s); [exact H|reflexivity|]. simpl.
@@ -171,6 +171,10 @@ Proof.
     destruct (bn_add_edges_g (bg m) es) as [g' o1] eqn:E. simpl.
     apply (good_commit s); [exact H|reflexivity|]. cbn [bg log_ew set_bg].
     assert (G := bn_add_edges_g_good es _ (good_nth s a m H En)). rewrite E in G. exact G.
+  - destruct (nth_error (ms s) a) as [m|] eqn:En; [|exact H].
+    destruct (bn_remove_edges_g (bg m) es strict) as [g' o1] eqn:E. simpl.
+    apply (good_commit s); [exact H|reflexivity|]. cbn [bg set_bg].
+    assert (G := bn_remove_edges_g_good es strict _ (good_nth s a m H En)). rewrite E in G. exact G.
   - destruct (nth_error (ms s) a) as [m|] eqn:En; [|exact H].
     destruct (m_remove_nodes s m xs) as [[s' m'] o1] eqn:E. simpl. apply m_remove_nodes_spec in E.
     destruct E as [A G]. apply (good_commit s); [exact H|exact A|]. apply G. eapply good_nth; eauto.
